@@ -72,7 +72,7 @@
 (* have a deadline far away (or none): they wait for ever.                    *)
 EXTENDS Naturals, Sequences, FiniteSets, TLC
 
-CONSTANTS Program,            \* [msgs, hold, ctl, rd, closer]:
+CONSTANTS Program,            \* [msgs, hold, ctl, rd, cx, closer]:
                               \*   msgs   = sequence of messages, message = sequence of frames,
                               \*            frame = BOOLEAN (TRUE: a second transport write `extra`)
                               \*   ctl    = sequence (one per control sender) of sequences of
@@ -82,6 +82,9 @@ CONSTANTS Program,            \* [msgs, hold, ctl, rd, closer]:
                               \*            application before that frame
                               \*   rd     = sequence of the answers of the reader's handlers
                               \*            ("pong", "close"; "@" appended: default handler)
+                              \*   cx     = sequence of [p, c, n]: the control frame of call c of process p
+                              \*            reaches the transport in n > 1 writes (the library's
+                              \*            choice: e.g. header, then the caller's payload); all others in one
                               \*   closer = BOOLEAN (is there a process calling Conn.Close)
           ControlTakesLock, FlushAtomic, LatchChecked, CloseLatches, TimeoutReleases,
           HandlerControlPath
@@ -123,8 +126,15 @@ Short(p) == IsShort(CtlSeq(p)[call[p]])         \* K: the call in progress has a
 Bounded(p) == Short(p) \/ IsDflt(CtlSeq(p)[call[p]])   \* ... a deadline it may give up on
 Msg    == prog.msgs[call["D"]]                 \* D: message in progress
 HasExtra(e) == e.proc = "D" /\ prog.msgs[e.call][e.frame]
-IsClose(e)  == e.part = "ctl" /\ Code(CtlSeq(e.proc)[e.call]) = "close"
-CloseOnWire == \E i \in 1..Len(wire) : IsClose(wire[i])
+\* A control frame is one or more transport writes of its sender: part "ctl" (the first, it holds the
+\* frame header) and parts "cext"; the field `frame` of their wire entries numbers them 1..CParts.
+CParts(p, j) == LET S == {i \in 1..Len(prog.cx) : prog.cx[i].p = p /\ prog.cx[i].c = j}
+                IN IF S = {} THEN 1 ELSE prog.cx[CHOOSE i \in S : TRUE].n
+IsCtl(e)    == e.part \in {"ctl", "cext"}
+PartsDone(p) == Cardinality({i \in 1..Len(wire) : IsCtl(wire[i]) /\ wire[i].proc = p /\ wire[i].call = call[p]})
+IsClose(e)  == IsCtl(e) /\ Code(CtlSeq(e.proc)[e.call]) = "close"
+\* the Close frame has been sent: its last part is on the wire
+CloseOnWire == \E i \in 1..Len(wire) : IsClose(wire[i]) /\ wire[i].frame = CParts(wire[i].proc, wire[i].call)
 
 InitWith(pr) ==
   /\ prog = pr
@@ -209,12 +219,12 @@ Check(p) ==
 
 Entry(p) == IF pc[p] = "steal"     \* (deviation) D's buffered bytes, flushed by R as a frame of D's message
               THEN [proc |-> p, call |-> call["D"], frame |-> fr, part |-> "hdr"]
-              ELSE [proc |-> p, call |-> call[p], frame |-> IF p = "D" THEN fr ELSE 1, part |-> pc[p]]
+              ELSE [proc |-> p, call |-> call[p], frame |-> IF p = "D" THEN fr ELSE PartsDone(p) + 1, part |-> pc[p]]
 
 \* one net.Conn.Write.  On failure writeFatal(err) latches it (first error wins) - after the
 \* transport call has returned: a call that begins in between still finds the latch open
 TWrite(p) ==
-  /\ pc[p] \in {"hdr", "extra", "ctl", "steal"}
+  /\ pc[p] \in {"hdr", "extra", "ctl", "cext", "steal"}
   /\ IF closed
        THEN /\ err'   = [err EXCEPT ![p] = "other"]
             /\ pc'    = [pc EXCEPT ![p] = "fatal"]
@@ -229,7 +239,9 @@ TWrite(p) ==
                            CASE pc[p] = "hdr" /\ Msg[fr]  -> IF FlushAtomic THEN "extra" ELSE "rel1"
                              [] pc[p] = "hdr" /\ ~Msg[fr] -> "rel"
                              [] pc[p] = "extra"           -> "rel"
-                             [] pc[p] = "ctl"             -> IF Op(p) = "close" THEN "latch" ELSE "rel"]
+                             [] pc[p] \in {"ctl", "cext"} ->     \* the latch is set after the LAST part
+                                  IF PartsDone(p) + 1 < CParts(p, call[p]) THEN "cext"
+                                  ELSE IF Op(p) = "close" THEN "latch" ELSE "rel"]
                       /\ UNCHANGED <<latch, err>>
   /\ UNCHANGED <<prog, lock, closed, call, fr, hp, late, res>>
 
@@ -322,13 +334,13 @@ TypeOK ==
   /\ latch \in {"none", "closesent", "other"}
   /\ closed \in BOOLEAN
   /\ \A i \in 1..Len(wire) : /\ wire[i].proc \in Procs \ {"X"}
-                             /\ wire[i].part \in {"hdr", "extra", "ctl"}
+                             /\ wire[i].part \in {"hdr", "extra", "ctl", "cext"}
   /\ hp \in Nat /\ (pc["D"] = "app" => hp > 0)
   /\ \A p \in Procs : /\ call[p] \in 0..NCalls(p)
                       /\ Len(res[p]) \in {call[p], call[p] - 1}
 
 \* the lock is held exactly inside the critical sections
-LockOK == /\ lock # NoProc => pc[lock] \in {"chk", "hdr", "extra", "ctl", "latch", "fatal", "rel", "rel1", "steal", "srel"}
+LockOK == /\ lock # NoProc => pc[lock] \in {"chk", "hdr", "extra", "ctl", "cext", "latch", "fatal", "rel", "rel1", "steal", "srel"}
           /\ pc["D"] \in {"chk", "hdr", "extra", "rel1"} => lock = "D"
 
 \* the transport writes of one frame are adjacent: a header that needs `extra` is
@@ -339,14 +351,24 @@ WholeFrames ==
     /\ (wire[i].part = "hdr" /\ HasExtra(wire[i]) /\ i < Len(wire))
           => wire[i + 1] = [wire[i] EXCEPT !.part = "extra"]
     /\ wire[i].part = "extra" => (i > 1 /\ wire[i - 1] = [wire[i] EXCEPT !.part = "hdr"])
+    \* the same for the parts of a control frame
+    /\ (IsCtl(wire[i]) /\ wire[i].frame < CParts(wire[i].proc, wire[i].call) /\ i < Len(wire))
+          => wire[i + 1] = [wire[i] EXCEPT !.part = "cext", !.frame = @ + 1]
+    /\ wire[i].part = "cext" => /\ i > 1 /\ wire[i].frame > 1
+                                /\ wire[i - 1] = [wire[i] EXCEPT !.frame = @ - 1,
+                                                     !.part = IF wire[i].frame = 2 THEN "ctl" ELSE "cext"]
+    /\ wire[i].part = "ctl" => wire[i].frame = 1
 
 \* the frames of a data message are exactly what the data writer wrote: every transport write
-\* that carries (part of) a data frame is D's, every control frame is one whole write of its sender
+\* that carries (part of) a data frame is D's, every one that carries (part of) a control frame is its
+\* sender's (how many writes a frame takes is the library's business)
 MsgIntact ==
-  \A i \in 1..Len(wire) : (wire[i].part = "ctl") = (wire[i].proc \in CProcs)
+  \A i \in 1..Len(wire) : IsCtl(wire[i]) = (wire[i].proc \in CProcs)
 
 \* nothing reaches the wire after a Close frame
-AfterCloseWire == \A i \in 1..Len(wire) : IsClose(wire[i]) => i = Len(wire)
+AfterCloseWire == \A i \in 1..Len(wire) : IsClose(wire[i]) =>
+                     \A j \in (i + 1)..Len(wire) : /\ wire[j].part = "cext"
+                                                   /\ wire[j].proc = wire[i].proc /\ wire[j].call = wire[i].call
 
 \* a write call that began when a Close frame was on the wire fails with close-sent
 \* (a control write with a short deadline may instead have given up waiting for the lock)
@@ -376,7 +398,8 @@ ResultsHonest ==
           /\ OnWire([proc |-> "D", call |-> j, frame |-> f, part |-> "hdr"])
           /\ prog.msgs[j][f] => OnWire([proc |-> "D", call |-> j, frame |-> f, part |-> "extra"])
   /\ \A p \in CProcs : \A j \in 1..Len(res[p]) : res[p][j].r = "nil" =>
-        OnWire([proc |-> p, call |-> j, frame |-> 1, part |-> "ctl"])
+        \A k \in 1..CParts(p, j) :
+          OnWire([proc |-> p, call |-> j, frame |-> k, part |-> IF k = 1 THEN "ctl" ELSE "cext"])
   /\ \A p \in Procs : \A j \in 1..Len(res[p]) :
         \/ res[p][j].r \in {"nil", "closesent", "other"}
         \/ /\ res[p][j].r = "timeout" /\ ShortCall(p, j)      \* gave up: nothing of it on the wire
